@@ -1333,6 +1333,13 @@ PANIC_CALLS = (
     "slice::copy_from_slice", "slice::clone_from_slice", "slice::split_at", "slice::split_at_mut",
     "vec::Vec::remove", "vec::Vec::swap_remove", "vec::Vec::insert", "vec::Vec::drain", "vec::Vec::split_off",
     "cell::RefCell::borrow", "cell::RefCell::borrow_mut", "string::String::remove", "str::split_at",
+    # documented to panic on an out-of-range / non-char-boundary / zero argument
+    "string::String::truncate", "string::String::insert", "string::String::insert_str", "string::String::split_off", "string::String::drain",
+    "string::String::replace_range", "str::split_at_mut", "vec::Vec::extend_from_within", "slice::chunks", "slice::chunks_exact", "slice::windows",
+    "slice::rotate_left", "slice::rotate_right", "slice::swap", "slice::copy_within", "collections::vec_deque::VecDeque::swap",
+    "bytes::bytes::Bytes::split_to", "bytes::bytes::Bytes::split_off", "bytes::bytes::Bytes::slice", "bytes::bytes_mut::BytesMut::split_to", "bytes::bytes_mut::BytesMut::split_off",
+    "bytes::buf::buf_impl::Buf::advance", "bytes::buf::buf_impl::Buf::copy_to_slice", "bytes::buf::buf_impl::Buf::copy_to_bytes", "bytes::buf::buf_impl::Buf::get_u8",
+    "bytes::buf::buf_impl::Buf::get_u16", "bytes::buf::buf_impl::Buf::get_u32", "bytes::buf::buf_impl::Buf::get_u64", "iter::traits::iterator::Iterator::step_by",
     "re:^tokio::runtime::handle::Handle::current", "tokio::task::spawn::spawn", "tokio::task::blocking::spawn_blocking",
     "tokio::time::interval::interval", "tokio::time::interval::interval_at",
     "sync::mutex::Mutex::lock", "sync::rwlock::RwLock::read", "sync::rwlock::RwLock::write",
@@ -1564,6 +1571,48 @@ def check_ms_getter(ob, prog, getter, field, key=None):
                     if op.get("k") == "const" and "fn" in op and strip_generics(op["fn"]).startswith("core::time::Duration::from_"):
                         ctors.append(strip_generics(op["fn"]).split("::")[-1])
     ob.require(bool(ctors) and all(x == "from_millis" for x in ctors), f"{key}/unit-ms", f"{getter}: field {field} is in milliseconds but Durations are built with {sorted(set(ctors))}", b.path, b.loc())
+    check_pure_accessor(ob, prog, getter, field, key=key)
+
+
+_ACCESSOR_CALLS = ("core::time::Duration::from_millis", "core::option::Option::unwrap_or", "core::option::Option::map", "core::option::Option::unwrap_or_else",
+                   "core::option::Option::map_or", "core::option::Option::map_or_else", "core::option::Option::unwrap_or_default", "core::option::Option::copied",
+                   "core::option::Option::cloned", "core::option::Option::as_ref", "core::clone::Clone::clone", "core::default::Default::default",
+                   # `let ms = self.field?; Some(from_millis(ms))` on an Option-valued accessor
+                   "core::ops::try_trait::Try::branch", "core::ops::try_trait::FromResidual::from_residual")
+
+
+def check_pure_accessor(ob, prog, getter, field, key=None):
+    """A Config accessor answers with its own field or that field's documented default and nothing else: it reads no
+    other field, calls no other accessor and does no arithmetic / min / max on the way (a "sanity clamp" against another
+    option silently changes what the configured value means)."""
+    b = prog.body(getter)
+    if b is None:
+        raise AnchorLost(f"body {getter} not found")
+    key = key or getter.split("::")[-1]
+    bodies = [b] + [k for k in prog.children(b)]
+    odd = []
+    for bb_ in bodies:
+        for c in bb_.calls():
+            if bb_.is_cleanup(c.bb) or is_tracing(c):
+                continue
+            if not name_matches(c.fn or "", _ACCESSOR_CALLS) and not (c.fn or "").startswith("core::ops::function::Fn"):
+                odd.append((c.fn or "?").split("::")[-1])
+        for bl in bb_.blocks:
+            if bl.get("cleanup"):
+                continue
+            for st in bl["s"]:
+                if st["k"] == "assign" and st["rv"]["k"] in ("binop", "checked_binop"):
+                    odd.append("arith:" + str(st["rv"].get("op")))
+    ob.require(not odd, f"{key}/pure-accessor", f"{getter} does more than read its field: {sorted(set(odd))[:5]}", b.path, b.loc())
+    fields = set()
+    for bb_ in bodies:
+        for bl in bb_.blocks:
+            for st in bl["s"]:
+                if st["k"] == "assign":
+                    for x in walk(Origins(bb_).of_rvalue(st["rv"])):
+                        if x[0] == "field" and (mentions_param(x[1], "self") or mentions_upvar(x[1], "self")) and not str(x[2]).isdigit():
+                            fields.add(x[2])
+    ob.require(fields <= {field}, f"{key}/own-field-only", f"{getter} reads other configuration fields: {sorted(fields - {field})}", b.path, b.loc())
 
 
 # ---------------------------------------------------------------------------
@@ -1976,6 +2025,12 @@ def payload_root(t):
             continue
         break
     return s
+
+
+def is_param_or_upvar(t, name):
+    """the value of parameter `name` - seen from the function itself or from its async body (where it is a capture)"""
+    s = strip_identity(t)
+    return (s[0] == "param" and s[2] == name) or s == ("upvar", name)
 
 
 def static_bounds_ok(site, b):
